@@ -27,6 +27,7 @@ type snap struct {
 	grad    tensor.Tensor
 	gradVal string
 	edges   int
+	edgeIDs string // identities of the back-edge targets
 	scalars string // every scalar bookkeeping field of the tensor and its context (reflection)
 }
 
@@ -34,6 +35,9 @@ func snapOf(t tensor.Tensor) snap {
 	flat, nesting, dims, rect, _ := tensor.VerifInspect(t)
 	tr, dirty, g, targets, _ := tensor.VerifGradState(t)
 	s := snap{data: fmt.Sprintf("%v|%v|%v|%v|%v", flat, nesting, dims, rect, t.Shape()), tracked: tr, dirty: dirty, grad: g, edges: len(targets), scalars: tensor.VerifScalarFields(t)}
+	for _, tg := range targets {
+		s.edgeIDs += fmt.Sprintf("%p;", tg)
+	}
 	if g != nil {
 		gf, _, gd, _, _ := tensor.VerifInspect(g)
 		s.gradVal = fmt.Sprintf("%v|%v", gf, gd)
@@ -62,6 +66,9 @@ func diffSnap(a, b snap, allowGrad bool) string {
 	if a.edges != b.edges {
 		return fmt.Sprintf("back edges changed %d -> %d", a.edges, b.edges)
 	}
+	if a.edgeIDs != b.edgeIDs {
+		return "the tensor's back edges now lead to other tensors (its history was replaced)"
+	}
 	// a.scalars / b.scalars (reflective dump of every other bookkeeping field)
 	// are recorded for diagnosis only: a memoised value or a counter that
 	// returns to its resting state is not a change of shape, elements,
@@ -85,11 +92,26 @@ func diffSnap(a, b snap, allowGrad bool) string {
 // before/after the operation, after a second operation on the result and after
 // BackPropagate.
 func c10WriteSet(oc OpCase, tracked bool) core.Verdict {
+	return c10WriteSetOf(oc, tracked, false)
+}
+
+// c10WriteSetOf: with interm set, every operand is itself the RESULT of an operation on a leaf
+// (it has a history: back edges), and the leaves' gradients are checked at the end.
+func c10WriteSetOf(oc OpCase, tracked bool, interm bool) core.Verdict {
 	in := genInputs(oc.Op, oc.In, 55)
 	rin := make([]tensor.Tensor, len(in))
+	var leaves []tensor.Tensor
 	for i := range in {
-		rin[i] = rt.Make(in[i], tracked)
+		if interm {
+			half := ref.Map(in[i], func(v float64) float64 { return v / 2 })
+			leaf := rt.Make(half, tracked)
+			leaves = append(leaves, leaf)
+			rin[i] = leaf.Scale(2) // the same values (exactly), but an intermediate tensor
+		} else {
+			rin[i] = rt.Make(in[i], tracked)
+		}
 	}
+
 	before := make([]snap, len(rin))
 	for i := range rin {
 		before[i] = snapOf(rin[i])
@@ -128,6 +150,15 @@ func c10WriteSet(oc OpCase, tracked bool) core.Verdict {
 	}
 	if d := diffSnap(ys, snapOf(y), tracked); d != "" {
 		return core.Fail("%s: BackPropagate changed the intermediate result beyond gradient/spent: %s", oc.ID(), d)
+	}
+	if interm && tracked {
+		// the operands kept their history: the gradient reached the leaves behind them
+		// (unless the operation does not depend on that operand at all, e.g. a fully patched target)
+		for i, leaf := range leaves {
+			if rin[i].Gradient() != nil && leaf.Gradient() == nil {
+				return core.Fail("%s: operand %d is an intermediate tensor; it received a gradient but the leaf behind it did not (the operand's history was lost)", oc.ID(), i)
+			}
+		}
 	}
 	return core.Pass()
 }
@@ -542,6 +573,7 @@ func checkC10(c *core.Ctx) {
 		for tr := 0; tr < 2; tr++ {
 			tr := tr
 			c.Case(fmt.Sprintf("write/%s/t%d", oc.ID(), tr), true, func() core.Verdict { return c10WriteSet(oc, tr == 1) })
+			c.Case(fmt.Sprintf("write-interm/%s/t%d", oc.ID(), tr), true, func() core.Verdict { return c10WriteSetOf(oc, tr == 1, true) })
 		}
 	})
 	// Broadcast and comparisons are not in forEachOpCase
